@@ -345,7 +345,7 @@ impl Wal {
         let segment_path = dir.join(format!("wal.{:06}", segment_num));
 
         let segment = if segment_path.exists() {
-            WalSegment::open(&segment_path, segment_num)?
+            WalSegment::open_for_append(&segment_path, segment_num)?
         } else {
             WalSegment::create(&segment_path, segment_num)?
         };
@@ -1037,6 +1037,20 @@ impl WalSegment {
             offset: len,
             path: path.to_path_buf(),
         })
+    }
+
+    /// Opens an existing segment for appending. `open` leaves the file cursor at 0 (what
+    /// the sequential readers need) while `offset` is the file length; appending through
+    /// that handle would overwrite the segment from its first frame.
+    pub fn open_for_append(path: &Path, sequence: u64) -> Result<Self> {
+        let mut segment = Self::open(path, sequence)?;
+        let end = segment.offset;
+        segment
+            .writer
+            .get_mut()
+            .seek(SeekFrom::Start(end))
+            .wrap_err("failed to seek to end of WAL segment")?;
+        Ok(segment)
     }
 
     pub fn sequence(&self) -> u64 {
